@@ -22,7 +22,7 @@ use std::fmt;
 /// }
 ///
 /// // later
-/// assert_eq!(sampler.reservoir().iter().sum::<i64>(), 5);
+/// assert_eq!(sampler.reservoir().iter().sum::<i64>(), 3);
 /// ```
 ///
 /// # Applications
@@ -119,23 +119,32 @@ where
             self.reservoir.push(obj)
         } else if self.i < t {
             // normal reservoir sampling
-            let j: usize = self.rng.gen_range(0..self.i);
+            let j: usize = self.rng.gen_range(0..=self.i);
             if j < self.k {
                 self.reservoir[j] = obj;
             }
-        } else if self.i >= self.skip_until {
-            // fast skipping approximation
-            let j: usize = self.rng.gen_range(0..self.k);
-            self.reservoir[j] = obj;
+        } else {
+            if self.i == t {
+                // entering the fast skipping phase: draw the first gap
+                self.skip_until = self.i + self.draw_gap();
+            }
+            if self.i >= self.skip_until {
+                // fast skipping approximation: calculate next skip, then replace a random slot
+                self.skip_until = self.i + 1 + self.draw_gap();
 
-            // calculate next skip
-            let p = (self.k as f64) / ((self.i + 1) as f64);
-            let u = 1f64 - self.rng.gen_range((0.)..1.); // (0.0, 1.0]
-            let g = (u.ln() / (1. - p).ln()).floor() as usize;
-            self.skip_until = self.i + g;
+                let j: usize = self.rng.gen_range(0..self.k);
+                self.reservoir[j] = obj;
+            }
         }
 
         self.i += 1;
+    }
+
+    /// Number of items to skip before the next accepted one (geometric with `p = k / (i + 1)`).
+    fn draw_gap(&mut self) -> usize {
+        let p = (self.k as f64) / ((self.i + 1) as f64);
+        let u = 1f64 - self.rng.gen_range((0.)..1.); // (0.0, 1.0]
+        (u.ln() / (1. - p).ln()).floor() as usize
     }
 
     /// Checks if reservoir is empty (i.e. no data points where observed)
